@@ -319,7 +319,7 @@ static Result run_case (const Case &c)
 		if (items & I_INST)
 		{	if (rc != SF_TRUE) flag ("instrument_lost", I_INST, "") ;
 			else
-			{	std::string d ; if (gi.basenote != m.inst.basenote) d += " basenote" ; if (!(maj != SF_FORMAT_AIFF && m.inst.detune < 0) && abs (gi.detune - m.inst.detune) > 1) d += " detune(set " + std::to_string ((int) m.inst.detune) + " got " + std::to_string ((int) gi.detune) + ")" ; if (gi.loop_count != m.inst.loop_count) d += " loop_count" ;
+			{	std::string d ; if (gi.basenote != m.inst.basenote) d += " basenote" ; if (!(maj != SF_FORMAT_AIFF && m.inst.detune < 0) && gi.detune != m.inst.detune) d += " detune(set " + std::to_string ((int) m.inst.detune) + " got " + std::to_string ((int) gi.detune) + ")" ; if (gi.loop_count != m.inst.loop_count) d += " loop_count" ;
 				if (maj == SF_FORMAT_AIFF) { if (gi.gain != m.inst.gain) d += " gain" ; if (gi.velocity_lo != m.inst.velocity_lo || gi.velocity_hi != m.inst.velocity_hi) d += " velocity" ; if (gi.key_lo != m.inst.key_lo || gi.key_hi != m.inst.key_hi) d += " key" ; }
 				for (int i = 0 ; i < std::min (gi.loop_count, m.inst.loop_count) ; i++) { if (gi.loops [i].mode != m.inst.loops [i].mode) d += " loop" + std::to_string (i) + ".mode" ; if (gi.loops [i].start != m.inst.loops [i].start) d += " loop" + std::to_string (i) + ".start" ; if (gi.loops [i].end != m.inst.loops [i].end) d += " loop" + std::to_string (i) + ".end" ; if (gi.loops [i].count != m.inst.loops [i].count) d += " loop" + std::to_string (i) + ".count" ; }
 				if (!d.empty ()) flag ("instrument_field_changed", I_INST, d) ;
